@@ -360,10 +360,16 @@ std::string job_c13uf(const Args& a) {
     for (int i = 0; i + 1 < nElem; i += 2) prelude.push_back({perm[i], perm[i + 1]});
     if (shape > 1)
       for (int i = 0; i + 3 < nElem; i += 4) prelude.push_back({perm[i + r.below(2)], perm[i + 2 + r.below(2)]});
+    // a merge workload: most operations join elements of two *different* trees of the prelude
+    std::vector<int> pairOf(nElem, -1);
+    for (int i = 0; i + 1 < nElem; i += 2) pairOf[perm[i]] = pairOf[perm[i + 1]] = i / 2;
     for (int t = 0; t < nThreads; t++)
       for (auto& o : plan[t]) {
-        o[0] = r.below(10) < 7 ? 0 : 1;
+        o[0] = r.below(20) < 17 ? 0 : 1;
         if (o[1] == o[2]) o[2] = (o[1] + 1 + (int)r.below(nElem - 1)) % nElem;
+        if (r.below(10) < 8)
+          for (int tries = 0; tries < 8 && pairOf[o[1]] == pairOf[o[2]]; tries++) o[2] = (int)r.below(nElem);
+        if (o[1] == o[2]) o[2] = (o[1] + 1) % nElem;
       }
   }
   for (int i = 0, n = (int)a.i("prelude", 0); i < n; i++) prelude.push_back({(int)r.below(nElem), (int)r.below(nElem)});
